@@ -189,6 +189,19 @@ def run(repo: Repo, rep: Report, tier: str) -> None:
         ors = [o for o in (oriented(i, "attr is not None") for i in ast.walk(loops[0]) if isinstance(i, ast.If)) if o is not None]
         ok = ok and "attr = getattr(primitive, elem.keyword)" in body and len(ors) == 1 and [norm(x) for x in ors[0][0]] == ["elem.value = attr"] and [norm(x) for x in ors[0][1]] == ["del self.command_set[elem.tag]"]
     rep.check(ok, "generic-loops", "dimse_messages.DIMSEMessage.primitive_to_message", "for elem in command_set: value <- getattr(primitive, keyword); None -> delete", "every parameter the primitive has must be copied into the command set (and only unset ones removed)", mod=dm, node=p2m)
+    # nothing else may take an element out of the command set: a parameter the primitive has set is encoded
+    from ..loader import oriented as _oriented
+    for dl in [x for x in walk_no_nested(p2m) if isinstance(x, ast.Delete) or (isinstance(x, ast.Expr) and isinstance(x.value, ast.Call) and isinstance(x.value.func, ast.Attribute) and x.value.func.attr in ("pop", "popitem", "clear") and "command_set" in norm(x.value.func.value))]:
+        if "command_set" not in norm(dl):
+            continue
+        okd = False
+        g = enclosing(dl, (ast.If,))
+        while g is not None and not okd:
+            o = _oriented(g, "attr is None")
+            if o is not None and any(y is dl for s_ in o[0] for y in ast.walk(s_)):
+                okd = True
+            g = enclosing(g, (ast.If,))
+        rep.check(okd, "generic-loops", "dimse_messages.DIMSEMessage.primitive_to_message", dl, f"`{norm(dl)[:70]}` removes an element from the command set although the primitive's parameter is not None (it is outside the `attr is None` branch of the copy loop): a parameter the caller set - independent optional parameters such as Move Originator Message ID without the AE title - is not transmitted, and the primitive does not survive the round trip", mod=dm, node=dl)
     rev = [s for s in walk_no_nested(p2m) if isinstance(s, ast.Assign) and norm(s.targets[0]) == "rev_type"]
     okr = len(rev) == 1 and norm(rev[0].value) == "{vv[0]: kk for kk, vv in _MESSAGE_TYPES.items()}" and any(norm(s) == "self.command_set.CommandField = rev_type[cls_type_name]" for s in walk_no_nested(p2m) if isinstance(s, ast.stmt))
     rep.check(okr, "generic-loops", "dimse_messages.DIMSEMessage.primitive_to_message", "CommandField = inverse(_MESSAGE_TYPES)[class name]", "the command field must be the one the class name stands for", mod=dm, node=p2m)
@@ -201,6 +214,8 @@ def run(repo: Repo, rep: Report, tier: str) -> None:
     ds = [s for s in walk_no_nested(m2) if isinstance(s, ast.stmt) and norm(s) in ("setattr(primitive, dataset_keyword, self.data_set)", "dataset_keyword = _DATASET_KEYWORDS[cls_type_name]", "primitive._context_id = self.context_id")]
     rep.check(len(ds) == 3, "generic-loops", "dimse_messages.DIMSEMessage.message_to_primitive", "data set and context id handed to the primitive", "the data-set bytes and the context id must reach the primitive", mod=dm, node=m2)
     _delegate_c15(repo, rep, tier)
+    rep.rule("numeric-range", "the setters of Message IDs and sub-operation counters accept 0, 1 and 65535")
+    rep.floor("numeric boundary evaluations (DIMSE primitives)", check_dimse_numeric_ranges(repo, rep), 12)
     # ---- absent is None, not falsy ---------------------------------------------------------
     from ..lints import zero_legal_truthiness
     rep.rule("none-not-falsy", "Message IDs, Status and Priority are tested with `is None`: 0 is a legal value of each")
@@ -334,3 +349,35 @@ def _check_multi_valued(repo, rep, dm, m2, m2p, sp):
         extra = sorted(set(per_class[c]) - set(sp["multi_valued"]))
         rep.check(not extra, "multi-valued", fq, f"{c}: exempt keywords {sorted(per_class[c])}", f"{extra} are single-valued command elements: exempting them hands a list to a parameter that takes one value", mod=dm, node=trunc[0])
     rep.floor("(primitive, multi-valued keyword) pairs", n, 5)
+
+
+DIMSE_U16 = ("MessageID", "MessageIDBeingRespondedTo", "MoveOriginatorMessageID", "_NumberOfCompletedSuboperations", "_NumberOfFailedSuboperations", "_NumberOfRemainingSuboperations", "_NumberOfWarningSuboperations", "NumberOfCompletedSuboperations", "NumberOfFailedSuboperations", "NumberOfRemainingSuboperations", "NumberOfWarningSuboperations")
+
+
+def check_dimse_numeric_ranges(repo: Repo, rep: Report, rule: str = "numeric-range") -> int:
+    """Message IDs and sub-operation counters are unsigned 16-bit command elements (VR US): the primitive's
+    setter must take every value 0 .. 65535. The guards of each setter are evaluated (c01_prims._accepts) on 0,
+    1 and 65535: a setter that refuses 0 makes every response to a request with Message ID 0 an 'invalid
+    DIMSE message' on the receiving side."""
+    from .c01_prims import _Unk, _accepts
+
+    pm = repo.mod("dimse_primitives")
+    n = 0
+    seen = set()
+    for cname, ci in sorted(pm.classes.items()):
+        for pname in DIMSE_U16:
+            st = ci.setters.get(pname)
+            if st is None or id(st) in seen:
+                continue
+            seen.add(id(st))
+            fq = f"dimse_primitives.{cname}.{pname}"
+            param = st.args.args[1].arg
+            for v in (0, 1, 65535):
+                n += 1
+                try:
+                    ok = _accepts(body_nodoc(st), {param: v})
+                except _Unk as exc:
+                    rep.defer(f"{fq}: guard not evaluable ({exc})")
+                    break
+                rep.check(ok, rule, fq, f"value {v}", f"the setter refuses {v}, a legal value of this unsigned 16-bit command element: a received message carrying it cannot be converted to a primitive - 'invalid DIMSE message', Evt19, A-ABORT - and the caller sees none of the responses (for Message ID Being Responded To: every response to a request sent with that Message ID)", mod=pm, node=st)
+    return n
